@@ -562,3 +562,84 @@ func spliceVerdicts(paths [][]Cond, chain []*ssa.Call, depth int) [][]Cond {
 	return out
 }
 
+
+// SpliceVerdicts: the deep alternatives of one path's conditions (see
+// ReachCondsDeep).
+func SpliceVerdicts(conds []Cond) [][]Cond {
+	return spliceVerdicts([][]Cond{conds}, nil, 0)
+}
+
+// FieldOfHelperResult: v reads field #i of the struct a private helper call
+// returned (`out := decide(x); … out.msg …`). ok=false: v is something else.
+func FieldOfHelperResult(v ssa.Value) (call *ssa.Call, field int, ok bool) {
+	v = LoadedValue(Unwrap(v))
+	switch f := v.(type) {
+	case *ssa.Field:
+		if c, isCall := LoadedValue(f.X).(*ssa.Call); isCall {
+			if h := StaticCallee(&c.Call); PrivateHelper(h) && h.Signature.Results().Len() == 1 {
+				return c, f.Field, true
+			}
+		}
+	case *ssa.UnOp:
+		if fa, isFA := f.X.(*ssa.FieldAddr); isFA && f.Op == token.MUL {
+			if a, isA := fa.X.(*ssa.Alloc); isA {
+				if st := EffectiveStores(a); len(st) == 1 {
+					if c, isCall := st[0].Val.(*ssa.Call); isCall {
+						if h := StaticCallee(&c.Call); PrivateHelper(h) && h.Signature.Results().Len() == 1 {
+							return c, fa.Field, true
+						}
+					}
+				}
+			}
+		}
+	}
+	return nil, 0, false
+}
+
+// ResultFieldPaths: the access paths (in the caller's terms) of what field
+// #field of the helper's struct result holds, one per return of the helper
+// that sets it; returns that leave it zero are skipped. ok=false: a return
+// whose struct could not be read.
+func ResultFieldPaths(call *ssa.Call, field int) (paths []string, ok bool) {
+	h := StaticCallee(&call.Call)
+	if h == nil {
+		return nil, false
+	}
+	return resultFieldPaths(h, []*ssa.Call{call}, field, 0)
+}
+
+func resultFieldPaths(h *ssa.Function, chain []*ssa.Call, field int, depth int) ([]string, bool) {
+	var out []string
+	for _, rb := range ReturnBlocks(h) {
+		rv := LoadedValue(ReturnValues(LastInstr(rb).(*ssa.Return))[0])
+		switch x := rv.(type) {
+		case *ssa.UnOp:
+			a, isA := x.X.(*ssa.Alloc)
+			if !isA || x.Op != token.MUL || a.Referrers() == nil {
+				return nil, false
+			}
+			for _, r := range *a.Referrers() {
+				if fa, isFA := r.(*ssa.FieldAddr); isFA && fa.Field == field && fa.Referrers() != nil {
+					for _, r2 := range *fa.Referrers() {
+						if st, isSt := r2.(*ssa.Store); isSt && st.Addr == ssa.Value(fa) && !IsNilConst(st.Val) {
+							out = append(out, PathOfChain(st.Val, chain))
+						}
+					}
+				}
+			}
+		case *ssa.Call:
+			g := StaticCallee(&x.Call)
+			if !PrivateHelper(g) || depth > 2 {
+				return nil, false
+			}
+			sub, ok := resultFieldPaths(g, append(append([]*ssa.Call(nil), chain...), x), field, depth+1)
+			if !ok {
+				return nil, false
+			}
+			out = append(out, sub...)
+		default:
+			return nil, false
+		}
+	}
+	return out, true
+}
